@@ -112,23 +112,6 @@ Fixpoint reapply_pending (tail : bool) (t : tree) : bool :=
   end.
 Definition has_reapply_pending (t : tree) : bool := reapply_pending true t.
 
-(* C06-K5 (inside the class the property excludes): the last element of an
-   else-chain is a bare `;;`.  The chain's own body then ends in that
-   EndExpression, the body's closing EndExpression is skipped as a repetition,
-   and the join entry of the chain -- the position after the chain's code --
-   is the first instruction of the first arm: an arm that runs jumps back to
-   its own start, one operand deeper each time. *)
-Definition chain_terminator_node (t : tree) : bool :=
-  match kind_of (t_def t) with
-  | KElse => match rev (chain_elems t) with
-             | e :: _ => definition_eqb (t_def e) D_ExpressionTerminator
-             | [] => false
-             end
-  | _ => false
-  end.
-Definition has_chain_terminator : tree -> bool := anywhere chain_terminator_node.
-Definition Known_C06_K5 (t : tree) : Prop := has_chain_terminator t = true.
-
 Definition Known_C06_K1 (t : tree) : Prop := has_chain_no_else t = true.
 Definition Known_C06_K2 (t : tree) : Prop := has_empty_value t = true.
 Definition Known_C06_K3 (t : tree) : Prop := has_reapply_pending t = true.
